@@ -227,6 +227,20 @@ pub(crate) fn try_build_with(env: &Env, w: &Worlds, p: &Params, scn: Scn, old: O
             let tx7: H256 = w.main.blocks[7].transactions()[1].hash().unpack();
             let _ = sim.c().rpc_chain().fetch_header(h6);
             let _ = sim.c().rpc_tx().fetch_transaction(tx7);
+            // a second transaction from another block and a second header: the answers carry
+            // several filtered blocks / headers
+            if let Some(b) = w.main.blocks[2..7].iter().rev().find(|b| b.transactions().len() > 1) {
+                let tx: H256 = b.transactions()[1].hash().unpack();
+                let _ = sim.c().rpc_tx().fetch_transaction(tx);
+            } else {
+                let tx: H256 = w.main.blocks[3].transactions()[0].hash().unpack();
+                let _ = sim.c().rpc_tx().fetch_transaction(tx);
+            }
+            let h4: H256 = w.main.blocks[4].hash().unpack();
+            let _ = sim.c().rpc_chain().fetch_header(h4);
+            // and a transaction no block contains (an honest server reports it as missing)
+            let phantom: H256 = phantom_tx(w).hash().unpack();
+            let _ = sim.c().rpc_tx().fetch_transaction(phantom);
             sim.cm().tick_lc(1);
             sim.pump_out();
             let n = sim.queue.len();
@@ -475,4 +489,16 @@ pub(crate) fn run(opts: &Opts, report: &mut Report) {
     report.assume("Dummy PoW (quick) / Dummy + Eaglesong with easy targets (thorough); hash collisions excluded");
     report.assume("the documented `long fork detected` panic is not counted");
     report.assume("quick: byte windows use the all-ones value of widths 4/8/32, zero for width 8 and 2^255-1 for width 32; thorough: all boundary values and bit flips");
+}
+
+/// A well-formed transaction that no block of any world chain contains.
+pub(crate) fn phantom_tx(w: &Worlds) -> ckb_types::core::TransactionView {
+    let cb = w.main.blocks[1].transactions()[0].clone();
+    let out = cb.outputs().get(0).expect("cellbase output");
+    crate::verif::txlib::build_tx(
+        &[],
+        &[ckb_types::packed::OutPoint::new(cb.hash(), 0)],
+        &[crate::verif::txlib::OutSpec::lock(&out.lock(), 4242)],
+        0xdead_beef,
+    )
 }
